@@ -36,6 +36,8 @@ func c09World() (*appx.World, []seed) {
 			{Members: []int{0, 1, 2, 3}, Threshold: 2, IndexPlus: 1, Act: 0},
 			{Members: []int{1, 2, 3}, Threshold: 2, IndexPlus: 1, Act: 5},
 			{Members: []int{0, 1}, Threshold: 1, IndexPlus: 0, Act: 0},
+			// not in the alphabet, only in seed histories: a set change that drops two validators at once
+			{Members: []int{0, 1}, Threshold: 1, IndexPlus: 1, Act: 5},
 		},
 		SeenBlocks: []uint64{5, 3},
 	}
@@ -64,6 +66,14 @@ func c09World() (*appx.World, []seed) {
 			Ops: []appx.Op{op("checkin", 0, 0, 0), op("checkin", 1, 0, 0), op("seen", 0, 0, 0), endblock}},
 		{Name: "n=3 t=2 fork, chain id whose override holds the check-in fork back, two check-ins", Genesis: appx.Genesis{Members: []int{0, 1, 2}, Threshold: 2, ForkEnabled: true, ChainID: "shutter-gnosis-1000"},
 			Ops: []appx.Op{op("checkin", 0, 0, 0), op("checkin", 1, 0, 0), op("seen", 0, 0, 0), endblock}},
+		// block ends that remove several validators at once
+		{Name: "n=3 t=2 fork, everybody checked in, block closed (two key changes in one block remove two validators)", Genesis: g3, Ops: []appx.Op{
+			op("checkin", 0, 0, 0), op("checkin", 1, 0, 0), op("checkin", 2, 0, 0), op("seen", 0, 0, 0), op("seen", 1, 0, 0), endblock,
+		}},
+		{Name: "n=4 t=2, everybody checked in, set change to {0,1} accepted and seen by one (its start removes two validators)", Genesis: g4, Ops: []appx.Op{
+			op("checkin", 0, 0, 0), op("checkin", 1, 0, 0), op("checkin", 2, 0, 0), op("checkin", 3, 0, 0), op("seen", 0, 1, 0), op("seen", 1, 1, 0), endblock,
+			op("cfg", 0, 3, 0), op("cfg", 1, 3, 0), op("seen", 0, 0, 0),
+		}},
 	}
 	return w, seeds
 }
